@@ -279,3 +279,46 @@ def run(ck, prop, n, profile, extra=None):
             ck.sample(s)
         digests |= r["digests"]
     return digests
+
+
+def standard_main(prop, modules, theorems, profile, n_quick, n_thorough, assumptions, rule, keep):
+    """keep: predicate on failure records (what / signature) selecting what this property judges"""
+    tier, seed, replay = common.parse_args(sys.argv[1:])
+    ck = common.Check(prop, tier, seed, modules)
+    obligations = common.obligations_for(modules)
+    common.setup_repo_path()
+    if replay:
+        obj = json.load(open(replay))
+        case = obj.get("case") or (obj.get("first_disagreement") or {}).get("case")
+        if not isinstance(case, dict) or "classes" not in case:
+            raise common.InfraError("replay file holds no object-tree scenario")
+        digests = run(ck, prop, 0, profile, extra=[case])
+    else:
+        n = n_thorough if tier == "thorough" else n_quick
+        digests = run(ck, prop, n, profile)
+    # exceptions escaping randomize() are C02's concern (known finding F33 among them); here they only end the call
+    nexc = sum(1 for f in ck.oracle_failures if f["signature"].startswith("internal-exception"))
+    ck.oracle_failures[:] = [f for f in ck.oracle_failures if not f["signature"].startswith("internal-exception") and keep(f["signature"])]
+    ck.corr_failures[:] = [f for f in ck.corr_failures if keep(f["what"])]
+    ck.cov.update({"programs": ck.counts.get("eval_scenarios", 0), "distinct_nontrivial": len(digests), "rule": rule,
+                   "calls_ended_by_internal_exception_not_judged_here": nexc,
+                   "evaluations": ck.counts.get("calls", 0)})
+    # failing-input search: rerun the disagreeing histories under other random states
+    if ck.corr_failures and not ck.oracle_failures and not replay:
+        cases = sorted(ck.corr_failures, key=lambda f: len(json.dumps(f["case"], default=str)))[:5]
+        extra = []
+        rng = random.Random(seed + 23)
+        for f in cases:
+            for _ in range(25):
+                scn = json.loads(json.dumps(f["case"]))
+                for o in scn["ops"]:
+                    if o["op"] == "randomize":
+                        o["seed"] = rng.randrange(1 << 30)
+                extra.append(scn)
+        before = len(ck.corr_failures)
+        run(ck, prop, 0, profile, extra=extra)
+        del ck.corr_failures[before:]
+        ck.oracle_failures[:] = [f for f in ck.oracle_failures if not f["signature"].startswith("internal-exception") and keep(f["signature"])]
+        ck.cov["failing_input_search_scenarios"] = len(extra)
+    rc = ck.finish(obligations=obligations, assumptions=assumptions, theorems_lost=theorems)
+    sys.exit(rc)
